@@ -1566,7 +1566,7 @@ func (w *World) roTable(g *ssa.Global) map[string]roEntry {
 		return t
 	}
 	roTableCache[g] = nil
-	if g.Pkg == nil || !strings.HasPrefix(g.Pkg.Pkg.Path(), modulePath) || g.Object() == nil {
+	if g.Pkg == nil || !(strings.HasPrefix(g.Pkg.Pkg.Path(), modulePath) || g.Pkg.Pkg.Path() == "fix") || g.Object() == nil {
 		return nil
 	}
 	if g.Object().Exported() {
